@@ -103,10 +103,63 @@ theorem decodeAttrData_bin_of_other (code : Nat) (v : Bytes) (d : AData)
   have h1 : ¬ code = 1 := fun x => hc (Or.inl x)
   have h4 : ¬ (code = 4 ∨ code = 5 ∨ code = 9) := fun x => hc (Or.inr x)
   simp only [h1, if_false, h4, Bool.false_eq_true] at h
-  repeat' split at h
-  all_goals first
-    | (cases h; exact ⟨_, rfl⟩)
-    | (cases h)
+  -- every remaining arm returns `none` or `some (.bin _)`
+  have fin : ∀ (o : Option AData), o = some d → (o = none ∨ ∃ b, o = some (.bin b)) → ∃ b, d = .bin b := by
+    intro o ho hcase
+    rcases hcase with hn | ⟨b, hb⟩
+    · rw [hn] at ho; cases ho
+    · rw [hb] at ho; injection ho with ho; exact ⟨b, ho.symm⟩
+  apply fin _ h
+  by_cases c2 : code = 2
+  · simp only [c2, if_true]
+    repeat' split
+    all_goals first | exact Or.inr ⟨_, rfl⟩ | exact Or.inl rfl
+  · simp only [c2, if_false]
+    by_cases c6 : code = 6
+    · simp only [c6, if_true]
+      repeat' split
+      all_goals first | exact Or.inr ⟨_, rfl⟩ | exact Or.inl rfl
+    · simp only [c6, if_false]
+      by_cases c7 : code = 7
+      · simp only [c7, if_true]
+        repeat' split
+        all_goals first | exact Or.inr ⟨_, rfl⟩ | exact Or.inl rfl
+      · simp only [c7, if_false]
+        by_cases c8 : code = 8 ∨ code = 10
+        · simp only [c8, if_true]
+          repeat' split
+          all_goals first | exact Or.inr ⟨_, rfl⟩ | exact Or.inl rfl
+        · simp only [c8, if_false]
+          by_cases c16 : code = 16
+          · simp only [c16, if_true]
+            repeat' split
+            all_goals first | exact Or.inr ⟨_, rfl⟩ | exact Or.inl rfl
+          · simp only [c16, if_false]
+            by_cases c32 : code = 32
+            · simp only [c32, if_true]
+              repeat' split
+              all_goals first | exact Or.inr ⟨_, rfl⟩ | exact Or.inl rfl
+            · simp only [c32, if_false]
+              by_cases c17 : code = 17
+              · simp only [c17, if_true]
+                repeat' split
+                all_goals first | exact Or.inr ⟨_, rfl⟩ | exact Or.inl rfl
+              · simp only [c17, if_false]
+                by_cases c18 : code = 18
+                · simp only [c18, if_true]
+                  repeat' split
+                  all_goals first | exact Or.inr ⟨_, rfl⟩ | exact Or.inl rfl
+                · simp only [c18, if_false]
+                  by_cases c3 : code = 3
+                  · simp only [c3, if_true]
+                    repeat' split
+                    all_goals first | exact Or.inr ⟨_, rfl⟩ | exact Or.inl rfl
+                  · simp only [c3, if_false]
+                    by_cases c26 : code = 26
+                    · simp only [c26, if_true]
+                      repeat' split
+                      all_goals first | exact Or.inr ⟨_, rfl⟩ | exact Or.inl rfl
+                    · simp only [c26, if_false]; exact Or.inr ⟨v, rfl⟩
 
 theorem attrOk_len (a : Attr) (h : attrOk a = true) : (wireValue a).length < 65536 := by
   simp only [attrOk, Bool.and_eq_true, decide_eq_true_eq] at h
